@@ -309,7 +309,7 @@ Proof.
   { destruct (negb mk || (p0 r =? 0)); [apply (fq_grow_fits _ _ _ E1 Hf)|apply (fq_make_room_len _ _ _ _ E1 Hf)]. }
   destruct g; try (inversion H; subst; exact Hf1).
   destruct (fq_fill ffuel r1) as [r2 fr] eqn:E2. pose proof (fq_fill_len _ _ _ _ E2 Hf1) as Hf2.
-  destruct fr; try (inversion H; subst; exact Hf2).
+  destruct fr; [|inversion H; subst; unfold QBufFits; fq_simpl; cbn [length]; lia|inversion H; subst; exact Hf2].
   destruct (fq_search_from s true r2) as [r3 sr] eqn:E3. pose proof (fq_search_from_fits _ _ _ _ _ E3 Hf2) as Hf3.
   destruct sr; try (inversion H; subst; exact Hf3).
   apply (IH _ _ _ _ H Hf3).
@@ -461,7 +461,7 @@ Proof.
   match type of H with (let '(r1, fr) := fq_fill ffuel ?R in _) = _ => set (r0 := R) in * end.
   destruct (fq_fill ffuel r0) as [r1 fr] eqn:E1.
   assert (Hf1 : QBufFits r1) by (apply (fq_fill_len _ _ _ _ E1); unfold r0; fq_simpl; cbn [length]; lia).
-  destruct fr; inversion H; subst; exact Hf1.
+  destruct fr; inversion H; subst; first [exact Hf1|unfold QBufFits; fq_simpl; cbn [length]; lia].
 Qed.
 
 (** ** the theorems (FASTQ) *)
